@@ -36,6 +36,7 @@ Next ==
     \/ Lifecycle /\ (ImportStep \/ RemoveStep)
     \/ Faults /\ (HandleBlockFault \/ HandleTxFault \/ WorkerStepFault)
     \/ Crashes /\ Crash
+    \/ Crashes /\ Lifecycle /\ \E k \in 1..RemoveCommits : RemoveStepCrash(k)
     \/ Crashes /\ Restart
     \/ Crashes /\ \E k \in 1..MaxBlocks : RestartCrash(k)
 
